@@ -210,6 +210,13 @@ def _blank_pubkey(ev, uni):
     _resign(ev, "A")
 
 
+def _suffixed_pubkey(ch, lead=False):
+    def m(ev, uni):
+        ev["pubkey"] = (ch + ev["pubkey"]) if lead else (ev["pubkey"] + ch)     # hashed and signed in this spelling
+        _resign(ev, "A")
+    return m
+
+
 def _two_delegations(first_bad):
     def m(ev, uni):
         good = C.delegation_tag("B", "A")
@@ -253,6 +260,11 @@ def universes_c03():
         E("f_sigupper", "A", 1, 35, mutate=_mut(lambda ev, u: ev.__setitem__("sig", ev["sig"].upper()))),
         E("f_sigblank", "A", 1, 36, mutate=_mut(lambda ev, u: ev.__setitem__("sig", ev["sig"][:64] + " " + ev["sig"][64:]))),
         E("f_pkblank", "A", 1, 37, mutate=_mut(_blank_pubkey)),
+        # ... and a line feed / carriage return / tab at the end (what a `$` in a pattern lets through, what fromhex() skips)
+        E("f_pknl", "A", 1, 38, mutate=_mut(_suffixed_pubkey("\n"))), E("f_pkcr", "A", 1, 39, mutate=_mut(_suffixed_pubkey("\r"))),
+        E("f_pklead", "A", 1, 40, mutate=_mut(_suffixed_pubkey("\t", lead=True))),
+        E("f_signl", "A", 1, 41, mutate=_mut(lambda ev, u: ev.__setitem__("sig", ev["sig"] + "\n"))),
+        E("f_idnl", "A", 1, 42, mutate=_mut(lambda ev, u: ev.__setitem__("id", ev["id"] + "\n"))),
     ]
     us["forged"] = forged
     # twins: the same event once authentic and once with a wrong signature (same id).  A relay that remembers what it
